@@ -78,6 +78,12 @@ func H_error_line() {
 		for j := 0; j < len(c.forbidden); j++ {
 			symx.Assume(w[i] != c.forbidden[j])
 		}
+		if c.pre == "//" && i < n-1 {
+			// a line comment ends at the first line end: whatever followed it inside the window would be
+			// program text, not part of the neutral construct. A line end may only close the window
+			symx.Assume(w[i] != '\n')
+			symx.Assume(w[i] != '\r' || (i == n-2 && w[n-1] == '\n'))
+		}
 		if c.pre == "$s = <<<'EOT'\n" {
 			symx.Assume(w[i] != 'E') // the body must not form the closing label
 		}
